@@ -21,7 +21,7 @@ FRAGS = [
     # reStructuredText
     '`', '``', '`ref`', '``lit``', '*em*', '**st**', '*', '**', '|sub|', '_', '__', 'ref_', '`text <target>`_', '`a`_', '.. _t:', '.. note:: n\n', '.. warning::\n   w\n', '.. code:: python\n\n   x = 1\n',
     '.. code-block:: py\n\n  y\n', '.. unknown:: x\n', '.. image:: x.png\n', '.. |s| replace:: t\n', '.. [1] foot\n', '[1]_', '.. math:: a^2\n', ':math:`x`', ':py:class:`C`', ':class:`~a.B`', ':func:`f()`', ':role:`x`',
-    ':parameters: not a list\n', ':arguments: text\n', ':exceptions: x\n', ':variables: x\n', ':ivariables: x\n', ':cvariables: x\n', ':groups: x\n', ':types: x\n', ':keywords: x\n', ':Parameters: `a` b\n',
+    '    @param x: a\n@return: b\n', '  @type x: int\n@param x: a\n', '\n\n        @ivar a: x\n    @ivar b: y\n@ivar c: z\n', ':parameters: not a list\n', ':arguments: text\n', ':exceptions: x\n', ':variables: x\n', ':ivariables: x\n', ':cvariables: x\n', ':groups: x\n', ':types: x\n', ':keywords: x\n', ':Parameters: `a` b\n',
     ':param x: ', ':type x: ', ':returns: ', ':rtype: ', ':raises E: ', ':ivar v: ', ':var v: ', ':field', ':param', ': :', ':param x y z: ', ':Parameters:\n    x : int\n        doc\n', ':IVariables:\n  - `a`: d\n',
     '+---+\n| a |\n+---+\n', '=== ===\na   b\n=== ===\n', '\\ ', '\\', '\\*', '.. ', '..\n', '.. include:: /etc/passwd\n', '.. raw:: html\n\n   <b>x</b>\n', '.. contents::\n', '.. versionadded:: 1.0\n', '.. deprecated:: 2\n',
     # google / numpy
